@@ -259,6 +259,19 @@ def rebuild_fn(ex, names):
             raise Bad(f'{wname} is not equal to the original')
         if type(y) is not type(x):
             raise Bad(f'{wname} has a different type')
+    # an abstract role class given the ident of an item of another role refuses it,
+    # whether or not that item is in the cache (here it is: it was just built)
+    if type(x).__name__ not in ('Quantifier', 'Operator'):
+        from pytableaux.lang import Parameter, Predicate
+        wrong = [c for c in (Sentence, Parameter, Predicate) if not isinstance(x, c)]
+        for c in wrong:
+            try:
+                y = c(x.ident)
+            except TypeError:
+                continue
+            except Exception as e:  # noqa: BLE001
+                raise Bad(f'{c.__name__}(ident of a {type(x).__name__}) raised {type(e).__name__}: {e}')
+            raise Bad(f'{c.__name__}(ident of a {type(x).__name__}) returned {y!r} (cached item of another role)')
     return len(ways)
 
 
